@@ -43,8 +43,16 @@ def bad_discrepancies(B):
     return bad
 
 
-def h_generate(ctx, program, limit_given=None, specs=None, max_given=None, fixed_bs=None, only_last_output=False):
-    specs = specs if specs is not None else PROGRAMS[program]
+def h_generate(ctx, program, limit_given=None, specs=None, max_given=None, fixed_bs=None, only_last_output=False,
+               flag_history=False):
+    if specs is None:
+        # curated program: one solver-chosen node that does not use meta may have had the flag switched on and off again
+        specs = [sp.clone() for sp in PROGRAMS[program]]
+        if flag_history:
+            cands = [sp for sp in specs if sp.kind != 'Constant' and not sp.uses_meta]
+            k = ctx.choice('meta_declared_then_withdrawn', len(cands) + 1)
+            if k:
+                cands[k - 1].meta_cleared = True
     B = Built(ctx, specs)
     names = B.order
     # solver-chosen request: which outputs, which nodes are supplied by the user
@@ -135,8 +143,11 @@ def family_program(ctx, n_nodes, last_kinds=None):
         if kind in ('Summary', 'Discrepancy') and not pos:
             raise core.Infeasible()        # the constructors of these classes demand at least one positional parent
         observed = kind == 'Simulator' or (kind == 'Summary' and ctx.flag('observed_%s' % name))
-        meta = kind not in ('Constant', 'Prior') and i == n_nodes - 1 and ctx.flag('meta_%s' % name)
-        specs.append(Spec(name, kind, pos, named, observed=observed, uses_meta=meta))
+        # the last node: never a meta user / a meta user / declared one and withdrawn again (flag present but false)
+        meta = ctx.choice('meta_%s' % name, 3) if (kind not in ('Constant', 'Prior') and i == n_nodes - 1) else 0
+        sp = Spec(name, kind, pos, named, observed=observed, uses_meta=meta == 1)
+        sp.meta_cleared = meta == 2
+        specs.append(sp)
     return specs
 
 
@@ -211,6 +222,10 @@ for pname in ('chain', 'two_summaries', 'operation_between', 'two_sims'):
                        tiers=('quick', 'thorough') if pname in ('chain', 'two_summaries') else ('thorough',),
                        bounds='program %s, two consecutive batches on one context, second with one overridden node' % pname))
 
+for pname in ('two_summaries', 'chain'):
+    HARNESSES.append(H('gen_%s_flag_history' % pname, h_generate, dict(program=pname, flag_history=True, max_given=1, fixed_bs=3),
+                       bounds='program %s; one solver-chosen node (or none) had uses_meta switched on and off again before use; '
+                              'every subset of requested outputs, at most one supplied node, batch_size 3' % pname))
 _FAM = ('EVERY program of %d nodes (names m, c, x, a created in that order): kind of each node in ' + KINDS_TXT + ', each earlier '
         'node no / positional / named parent (priors and discrepancies: positional only), positional order ascending or '
         'descending, observed summaries, last node optionally a meta user; ')
